@@ -71,6 +71,9 @@ pub struct OBook {
     pub named_name_last: bool,
     /// OpenPGP style encryption (ODF 1.3): a manifest:keyinfo element with nested elements precedes the file entries
     pub manifest_keyinfo: bool,
+    /// indent the document: a line break and two spaces per level between elements, never inside a paragraph
+    /// (LibreOffice writes this when 'size optimisation for ODF' is switched off)
+    pub indent: bool,
 }
 
 fn spaces_xml(n: usize, mode: SpaceMode, at_start: bool) -> String {
@@ -208,5 +211,31 @@ pub fn write_with_content(b: &OBook, content: &[u8], method: Method) -> Vec<u8> 
 }
 
 pub fn write(b: &OBook, method: Method) -> Vec<u8> {
-    write_with_content(b, content_xml(b).as_bytes(), method)
+    let c = content_xml(b);
+    write_with_content(b, if b.indent { indent_xml(&c) } else { c }.as_bytes(), method)
+}
+
+/// Insert white space between adjacent tags, except inside text:p (where white space is content).
+pub fn indent_xml(x: &str) -> String {
+    let b = x.as_bytes();
+    let mut out = String::with_capacity(x.len() * 2);
+    let (mut depth, mut p_depth) = (0usize, 0usize);
+    let mut i = 0;
+    while i < b.len() {
+        if b[i] == b'<' {
+            let end = i + b[i..].iter().position(|c| *c == b'>').unwrap();
+            let tag = &x[i..=end];
+            let closing = tag.starts_with("</");
+            let selfc = tag.ends_with("/>") || tag.starts_with("<?");
+            if closing { depth = depth.saturating_sub(1); }
+            // a tag directly after another tag (no text in between) gets its own line
+            if i > 0 && b[i - 1] == b'>' && p_depth == 0 { out.push('\n'); for _ in 0..depth { out.push_str("  "); } }
+            out.push_str(tag);
+            if tag.starts_with("<text:p") && (tag.as_bytes()[7] == b'>' || tag.as_bytes()[7] == b' ' || tag.as_bytes()[7] == b'/') && !selfc { p_depth += 1; }
+            if tag == "</text:p>" { p_depth -= 1; }
+            if !closing && !selfc { depth += 1; }
+            i = end + 1;
+        } else { let n = b[i..].iter().position(|c| *c == b'<').unwrap_or(b.len() - i); out.push_str(&x[i..i + n]); i += n; }
+    }
+    out
 }
